@@ -19,7 +19,7 @@ type Clause struct {
 	Expr ast.Expr
 	Src  string // file:line
 	Loop int
-	Ord  int // ordinal among clauses of the same kind in this contract
+	Ord  int                               // ordinal among clauses of the same kind in this contract
 	Auto func(fr *Frame, st *State) string // engine-generated candidate (checked like any other)
 }
 
@@ -43,22 +43,22 @@ func (c *Clause) finding() string {
 }
 
 type Contract struct {
-	Key        string
-	IsIface    bool
-	Trusted    bool // assumed (dependency / node-side interface); not verified
-	Inline     bool
-	Params     []string
-	Results    []string
-	Requires   []*Clause
-	Ensures    []*Clause
-	Modifies   []string
-	Loops      map[int][]*Clause
+	Key         string
+	IsIface     bool
+	Trusted     bool // assumed (dependency / node-side interface); not verified
+	Inline      bool
+	Params      []string
+	Results     []string
+	Requires    []*Clause
+	Ensures     []*Clause
+	Modifies    []string
+	Loops       map[int][]*Clause
 	LoopAsserts map[int][]*Clause // proved at every back edge, then available to the invariant proofs
-	Implements string
-	Opts       map[string]string
-	Src        string
-	File       string
-	Views      []*View
+	Implements  string
+	Opts        map[string]string
+	Src         string
+	File        string
+	Views       []*View
 }
 
 // View is a derived contract parameter: view name = expr (evaluated in the pre-state)
@@ -69,15 +69,15 @@ type View struct {
 }
 
 type Specs struct {
-	C      map[string]*Contract
-	Ginv   map[string][]*Clause // by package short name ("" = all)
-	Ghost  map[string]string    // ghost var name -> sort
+	C          map[string]*Contract
+	Ginv       map[string][]*Clause // by package short name ("" = all)
+	Ghost      map[string]string    // ghost var name -> sort
 	GhostOrder []string
-	Defs   map[string]*SpecDef  // spec-level macro definitions
-	Sigs   map[string]*SmtSig   // prelude function signatures
-	Prelude string
-	Files  []string
-	Guards []Guard
+	Defs       map[string]*SpecDef // spec-level macro definitions
+	Sigs       map[string]*SmtSig  // prelude function signatures
+	Prelude    string
+	Files      []string
+	Guards     []Guard
 }
 
 // Guard: field (path prefix) of objects of type Root may only be read with the lock at path Lock of
